@@ -8,9 +8,14 @@
        fuzziness / slop / boost ... per-field options merged in, its _name is the name of the nearest
        named enclosing element"                                       -> C06_leaves (multiset of the
        leaf clauses of the JSON = clauses of EsSpec.expected_leaves, which is computed directly on the
-       tree), and C06_eleaves (the same in document order on the E-tree).
-       REFUTED in full by F16 (the name of an element that has the class of the operation or `+` it is
-       an operand of is lost); proved under the guard no_named_flattened.
+       tree), C06_eleaves (the same in document order on the E-tree) and C06_leaf_names (the names alone,
+       against the direct reading EsSpec.expected_names).  FULL since the repair of F16
+       (simplify_if_same spliced an operand of the operation's own class without looking at its name, so
+       the name of an operation nested directly in an operation of the same class — or of `+` under `+` —
+       never reached its elements; the repaired code keeps a same-class operand that has a name).  The
+       theorems of earlier rounds, guarded by no_named_flattened, are kept as corollaries
+       (C06_leaves_partial, C06_eleaves_partial); the refutations that relied on the defect were deleted
+       with it and replaced by regression examples on the former witnesses (C06_F16_regression_plus, C06_F16_regression_and).
    (b) "the result is plain JSON data"                                -> C06_plain_json (full)
    (c) "identical on every call of the same or of a fresh builder"   -> C06_calls_independent in the
        pure model; what ties it to the code: the generated facts C06_tie_* (class-level defaults are
@@ -72,22 +77,56 @@ Definition C06_leaf_names_statement : Prop :=
   forall cfg t e, supported t = true -> wf_config cfg = true -> build_etree cfg t = ROk e ->
     map l_name (eleaves e) = expected_names t None.
 
-(* F16:  + +a  with the inner Plus named "x" *)
+Theorem C06_leaf_names : C06_leaf_names_statement.
+Proof. intros cfg t e Hs _ Hb. exact (build_etree_names cfg t e Hs Hb). Qed.
+
+(* ---- regression examples on the former witnesses of F16 (the inputs on which the unrepaired code lost
+   the name) *)
 Definition named_as (n : str) (t : item) : item := set_name t (Some n).
+(*  + +a  with the inner Plus named "x" *)
 Definition t_F16 : item :=
   Unary KPlus meta0 (named_as [120]%N (Unary KPlus meta0 (Term KWord meta0 [97]%N))).
+(*  (a AND b) AND c  built as And(And(a, b), c), the inner AndOperation named "x" *)
+Definition t_F16_and : item :=
+  Op KAnd meta0 [named_as [120]%N (Op KAnd meta0 [Term KWord meta0 [97]%N; Term KWord meta0 [98]%N]);
+                 Term KWord meta0 [99]%N].
 
-Theorem C06_leaf_names_refuted : ~ C06_leaf_names_statement.
-Proof.
-  intros H.
-  assert (Hb : exists e, build_etree default_config t_F16 = ROk e /\ map l_name (eleaves e) = [None]).
-  { eexists. split; vm_compute; reflexivity. }
-  destruct Hb as [e [Hb Hn]]. specialize (H default_config t_F16 e eq_refl eq_refl Hb).
-  rewrite Hn in H. vm_compute in H. discriminate.
-Qed.
+(* match clause on the default field "text" with zero_terms_query "all", with / without a name *)
+Definition must_clause (q : str) (name : option str) : json :=
+  JObj [(k_match, JObj [([116;101;120;116]%N,
+     JObj (match name with Some n => [(k_name, JStr n)] | None => [] end ++
+           [(k_query, JStr q); (k_zero_terms_query, JStr k_all)]))])].
+Definition must_of (js : list json) : json := JObj [(k_bool, JObj [(k_must, JList js)])].
 
-Example F16_guard : no_named_flattened t_F16 = false /\ supported t_F16 = true.
-Proof. vm_compute. split; reflexivity. Qed.
+(* the named inner `+` is kept as a nested bool clause and its element carries `_name: "x"` *)
+Example C06_F16_regression_plus :
+  supported t_F16 = true /\ no_named_flattened t_F16 = false  /\
+  build default_config t_F16 = ROk (must_of [must_of [must_clause [97]%N (Some [120]%N)]])  /\
+  expected_names t_F16 None = [Some [120]%N].
+Proof. vm_compute. repeat split. Qed.
+
+(* the named inner AndOperation is kept; the clauses of a and b carry `_name: "x"`, the one of c none *)
+Example C06_F16_regression_and :
+  supported t_F16_and = true /\ no_named_flattened t_F16_and = false  /\
+  build default_config t_F16_and =
+    ROk (must_of [must_of [must_clause [97]%N (Some [120]%N); must_clause [98]%N (Some [120]%N)];
+                  must_clause [99]%N None])  /\
+  expected_names t_F16_and None = [Some [120]%N; Some [120]%N; None].
+Proof. vm_compute. repeat split. Qed.
+
+(* un-named nesting is flattened as before *)
+Example C06_unnamed_still_flattened :
+  build default_config (Op KAnd meta0 [Op KAnd meta0 [Term KWord meta0 [97]%N; Term KWord meta0 [98]%N];
+                                       Term KWord meta0 [99]%N]) =
+  ROk (must_of [must_clause [97]%N None; must_clause [98]%N None; must_clause [99]%N None]).
+Proof. vm_compute. reflexivity. Qed.
+
+(* '' is a name for `get_name(child) is None` (the operand is kept) but is not propagated (`if name:`) *)
+Example C06_empty_name_kept_not_propagated :
+  build default_config (Op KAnd meta0 [named_as [] (Op KAnd meta0 [Term KWord meta0 [97]%N; Term KWord meta0 [98]%N]);
+                                       Term KWord meta0 [99]%N]) =
+  ROk (must_of [must_of [must_clause [97]%N None; must_clause [98]%N None]; must_clause [99]%N None]).
+Proof. vm_compute. reflexivity. Qed.
 
 (* ---- rows of the documented table, evaluated in the model (regression examples) *)
 (* a.b:"x  y"~2^3 OR c:w?ld* with a.b nested and c not analysed, names n1 on the phrase *)
@@ -127,28 +166,13 @@ Definition C06_leaves_statement : Prop :=
   forall cfg t j, supported t = true -> wf_config cfg = true -> options_not_reserved cfg = true ->
     build cfg t = ROk j -> Permutation (leaves j) (expected_clauses cfg t).
 
-Theorem C06_leaves_refuted : ~ C06_leaves_statement.
+Theorem C06_leaves : C06_leaves_statement.
 Proof.
-  intros H.
-  assert (Hb : exists j, build default_config t_F16 = ROk j /\ exists c, leaves j = [c] /\
-                 exists c', expected_clauses default_config t_F16 = [c'] /\ json_eqb c c' = false).
-  { eexists. split; [vm_compute; reflexivity|]. eexists. split; [vm_compute; reflexivity|].
-    eexists. split; vm_compute; reflexivity. }
-  destruct Hb as [j [Hb [c [Hl [c' [He Hne]]]]]].
-  specialize (H default_config t_F16 j eq_refl eq_refl eq_refl Hb). rewrite Hl, He in H.
-  apply Permutation_length_1 in H. subst c'.
-  assert (Hr : forall x, json_eqb x x = true).
-  { clear. fix IH 1. intros [| b | d | s0 | l | o]; simpl.
-    - reflexivity.
-    - destruct b; reflexivity.
-    - unfold dec_struct_eqb. rewrite Bool.eqb_reflx, N.eqb_refl, Z.eqb_refl. reflexivity.
-    - apply str_eqb_refl.
-    - induction l as [|x l IHl]; [reflexivity|]. rewrite IH, IHl. reflexivity.
-    - induction o as [|[k v] o IHo]; [reflexivity|]. rewrite str_eqb_refl, IH, IHo. reflexivity. }
-  rewrite Hr in Hne. discriminate.
+  intros cfg t j Hs _ Hk Hb.
+  exact (build_leaves cfg t j Hs (options_kinds_not_reserved cfg t Hk) Hb).
 Qed.
 
-(* the guard removes exactly F16 *)
+(* the statement of earlier rounds, under the guard that removed exactly F16: now a corollary *)
 Definition C06_leaves_partial_statement : Prop :=
   forall cfg t j, supported t = true -> wf_config cfg = true -> options_not_reserved cfg = true ->
     no_named_flattened t = true ->
@@ -156,18 +180,24 @@ Definition C06_leaves_partial_statement : Prop :=
 
 Theorem C06_leaves_partial : C06_leaves_partial_statement.
 Proof.
-  intros cfg t j Hs _ Hk Hn Hb.
-  exact (build_leaves cfg t j Hs Hn (options_kinds_not_reserved cfg t Hk) Hb).
+  intros cfg t j Hs Hwf Hk _ Hb. exact (C06_leaves cfg t j Hs Hwf Hk Hb).
 Qed.
 
 (* in document order, on the E-tree the JSON is rendered from (the json of a BoolOperation lists its
    must clauses first, so only the multiset survives in the JSON) *)
+Definition C06_eleaves_statement : Prop :=
+  forall cfg t e, supported t = true ->
+    build_etree cfg t = ROk e -> eleaves e = expected_leaves cfg t.
+
+Theorem C06_eleaves : C06_eleaves_statement.
+Proof. intros cfg t e Hs Hb. exact (build_etree_leaves cfg t e Hs Hb). Qed.
+
 Definition C06_eleaves_partial_statement : Prop :=
   forall cfg t e, supported t = true -> no_named_flattened t = true ->
     build_etree cfg t = ROk e -> eleaves e = expected_leaves cfg t.
 
 Theorem C06_eleaves_partial : C06_eleaves_partial_statement.
-Proof. intros cfg t e Hs Hn Hb. exact (build_etree_leaves cfg t e Hs Hn Hb). Qed.
+Proof. intros cfg t e Hs _ Hb. exact (C06_eleaves cfg t e Hs Hb). Qed.
 
 (* ---- clause (b): plain JSON data (every dict has pairwise distinct str keys, values are JSON) —
    for every tree, supported or not *)
@@ -185,8 +215,9 @@ Proof. repeat split; try (vm_compute; reflexivity). eexists. split; vm_compute; 
 
 Print Assumptions C06_calls_independent.
 Print Assumptions C06_class_defaults_untouched.
-Print Assumptions C06_leaf_names_refuted.
-Print Assumptions C06_leaves_refuted.
+Print Assumptions C06_leaf_names.
+Print Assumptions C06_leaves.
+Print Assumptions C06_eleaves.
 Print Assumptions C06_leaves_partial.
 Print Assumptions C06_eleaves_partial.
 Print Assumptions C06_plain_json.
